@@ -82,6 +82,8 @@ def catalogue():
     C["unstack"] = lambda a, b: xp.unstack(_rows8(a, xp))[0]
     C["index-step"] = lambda a, b: a[::3, 1:]
     C["roll"] = lambda a, b: xp.roll(a, 7, axis=0)
+    C["rechunk-uneven"] = lambda a, b: a.rechunk((700, 300))
+    C["widen-sum-u8"] = lambda a, b: xp.sum(xp.astype(a, xp.uint8), axis=0, dtype=xp.uint64)
     return C
 
 
@@ -234,7 +236,8 @@ def run(chk):
     cat = catalogue()
     names = list(cat)
     rng = random.Random(chk.seed + 301)
-    probes = ["unstack", "index-step", "roll", "take", "argmax", "fused-diamond", "widen-sum-skinny", "widen-mean-skinny"]
+    probes = ["unstack", "index-step", "roll", "take", "argmax", "rechunk-uneven", "widen-sum-u8", "fused-diamond", "widen-sum-skinny",
+              "widen-mean-skinny"]
     if chk.tier == "quick":
         always = ["multiout-big-small", "multiout-small-big"]
         regular = [n for n in names if n not in probes and n not in always]
